@@ -178,3 +178,13 @@ func init() {
 		mutant{Name: "normal-return-skips-the-test-of-recovered", Prop: "C06", File: "interp/run.go", Old: "\t\tfor _, val := range deferred {\n\t\t\tf.callDeferred(val)\n\t\t}\n\n\t\tf.mutex.Lock()\n\t\tif f.recovered != nil {\n", New: "\t\tfor _, val := range deferred {\n\t\t\tf.callDeferred(val)\n\t\t}\n\t\tif exec == nil {\n\t\t\treturn\n\t\t}\n\n\t\tf.mutex.Lock()\n\t\tif f.recovered != nil {\n", Rule: "R06.4", Key: "runCfg/unwind/no-exit-between-deferred-and-repanic"},
 	)
 }
+
+func init() {
+	addMutants(
+		// round-6 seeds on C04
+		mutant{Name: "only-variable-sources-saved-in-a-multiple-assignment", Prop: "C04", File: "interp/run.go", Old: "\tn.exec = func(f *frame) bltn {\n\t\tt := make([]reflect.Value, len(svalue))\n\t\tfor i, s := range svalue {\n\t\t\tif n.child[i].ident == \"_\" {\n\t\t\t\tcontinue\n\t\t\t}\n\t\t\tt[i] = reflect.New(types[i]).Elem()\n\t\t\tt[i].Set(s(f))\n\t\t}\n\t\t// The map and key operands", New: "\ttemp := func(f *frame, i int) reflect.Value {\n\t\tv := svalue[i](f)\n\t\tif k := n.child[sbase+i].kind; k != identExpr && k != indexExpr && k != selectorExpr {\n\t\t\treturn v\n\t\t}\n\t\tt := reflect.New(types[i]).Elem()\n\t\tt.Set(v)\n\t\treturn t\n\t}\n\tn.exec = func(f *frame) bltn {\n\t\tt := make([]reflect.Value, len(svalue))\n\t\tfor i := range svalue {\n\t\t\tif n.child[i].ident == \"_\" {\n\t\t\t\tcontinue\n\t\t\t}\n\t\t\tt[i] = temp(f, i)\n\t\t}\n\t\t// The map and key operands", Rule: "R04.1", Key: "assign/multi-closure#2"},
+		mutant{Name: "benign-sources-saved-through-a-helper", Prop: "C04", File: "interp/run.go", Old: "\tn.exec = func(f *frame) bltn {\n\t\tt := make([]reflect.Value, len(svalue))\n\t\tfor i, s := range svalue {\n\t\t\tif n.child[i].ident == \"_\" {\n\t\t\t\tcontinue\n\t\t\t}\n\t\t\tt[i] = reflect.New(types[i]).Elem()\n\t\t\tt[i].Set(s(f))\n\t\t}\n\t\t// The map and key operands", New: "\ttemp := func(f *frame, i int) reflect.Value {\n\t\tt := reflect.New(types[i]).Elem()\n\t\tt.Set(svalue[i](f))\n\t\treturn t\n\t}\n\tn.exec = func(f *frame) bltn {\n\t\tt := make([]reflect.Value, len(svalue))\n\t\tfor i := range svalue {\n\t\t\tif n.child[i].ident == \"_\" {\n\t\t\t\tcontinue\n\t\t\t}\n\t\t\tt[i] = temp(f, i)\n\t\t}\n\t\t// The map and key operands", Benign: true},
+		mutant{Name: "zero-value-of-composite-types-memoized", Prop: "C04", File: "interp/type.go", Old: "\tcase arrayT, ptrT, structT, sliceT:\n\t\tv = reflect.New(t.frameType()).Elem()\n", New: "\tcase arrayT, ptrT, structT, sliceT:\n\t\tif z, ok := compositeZero[t]; ok {\n\t\t\tv = z\n\t\t\tbreak\n\t\t}\n\t\tv = reflect.New(t.frameType()).Elem()\n\t\tcompositeZero[t] = v\n", Also: [][3]string{{"interp/type.go", "func (t *itype) zero() (v reflect.Value, err error) {\n", "var compositeZero = map[*itype]reflect.Value{}\n\nfunc (t *itype) zero() (v reflect.Value, err error) {\n"}}, Rule: "R04.17", Key: "arrayLit/closure#1/populates-a-value-of-its-own"},
+		mutant{Name: "reference-kinds-not-copied-by-the-argument-copier", Prop: "C04", File: "interp/run.go", Old: "\tif !v.CanSet() {\n\t\treturn v\n\t}\n\tc := reflect.New(v.Type()).Elem()\n", New: "\tif !v.CanSet() || v.Kind() == reflect.Slice {\n\t\treturn v\n\t}\n\tc := reflect.New(v.Type()).Elem()\n", Rule: "R04.18", Key: "fixArg/settable-argument-copied"},
+	)
+}
